@@ -299,6 +299,31 @@ class Interp:
                                     self.op(f"{ci.name}({src(c.args[i])}).__name__", c, k, {"AttributeError": k - CLS - {"named", "module"}})
                                 else:
                                     self.op(f"{ci.name}({src(c.args[i])}).{n.attr}", c, k, {"AttributeError": k - CLS})
+                        # operations of the initialiser on the stored argument that only work for some kinds
+
+                        def is_fld(x):
+                            return isinstance(x, ast.Attribute) and isinstance(x.value, ast.Name) and x.value.id == "self" and x.attr == flds[i]
+
+                        label = f"{ci.name}({src(c.args[i])})"
+                        nonstr = k - STR
+                        for n in ast.walk(m.node):
+                            if isinstance(n, ast.FormattedValue) and is_fld(n.value) and n.format_spec is not None and n.format_spec.values:
+                                # format(v, spec) with a non-empty spec: object.__format__ rejects it, numbers reject string specs
+                                self.op(f"{label} formatted with spec {src(n.format_spec)}", c, k,
+                                        {"TypeError": nonstr - {"int", "bool", "float"}, "ValueError": nonstr & {"int", "bool", "float"}})
+                            if isinstance(n, ast.Call) and isinstance(n.func, ast.Name) and n.func.id == "format" and len(n.args) == 2 and is_fld(n.args[0]):
+                                self.op(f"{label} format(v, spec)", c, k, {"TypeError": nonstr - {"int", "bool", "float"}, "ValueError": nonstr & {"int", "bool", "float"}})
+                            if isinstance(n, ast.BinOp) and isinstance(n.op, ast.Add) and (is_fld(n.left) or is_fld(n.right)):
+                                other = n.right if is_fld(n.left) else n.left
+                                if isinstance(other, (ast.Constant, ast.JoinedStr)) and (isinstance(other, ast.JoinedStr) or isinstance(other.value, str)):
+                                    self.op(f"{label} concatenated with a string", c, k, {"TypeError": nonstr})
+                            if isinstance(n, ast.Subscript) and is_fld(n.value):
+                                self.op(f"{label} subscripted", c, k, {"TypeError": nonstr - {"list", "dict"}, "KeyError": nonstr & {"dict"}} if not isinstance(n.slice, ast.Slice)
+                                        else {"TypeError": nonstr - {"list"}})
+                            if isinstance(n, ast.Call) and isinstance(n.func, ast.Name) and n.func.id == "len" and n.args and is_fld(n.args[0]):
+                                self.op(f"len({label})", c, k, {"TypeError": nonstr - {"list", "dict"}})
+                            if isinstance(n, ast.Call) and isinstance(n.func, ast.Attribute) and n.func.attr == "join" and n.args and is_fld(n.args[0]):
+                                self.op(f"str.join({label})", c, k, {"TypeError": nonstr})
                 return None
             if q in self.prog.functions:
                 return None
